@@ -93,7 +93,7 @@ class Fn:
         if isinstance(d,ast.Name) and d.id in self.mod.funcs: return "(VFun %s)"%("(of_string %s)"%cq(d.id))
         raise Unsupported("default")
     def call_gen(self, gname_, args, binds, returns_self):
-        t=self.tmp(); binds.append("%s <- %s fuel %s ;; "%(t,gname_," ".join(args)))
+        t=self.tmp(); binds.append("%s <- %s py_call fuel %s ;; "%(t,gname_," ".join(args)))
         if returns_self:
             r=self.tmp(); binds.append("p_ <- unpack2 %s ;; let '(%s, v_self) := p_ in "%(t,r)); return r
         return t
@@ -254,27 +254,31 @@ class Fn:
         tail = "Ret (VTuple [VNone; v_self])" if self.is_method else "Ret VNone"
         core=" call (%s\n e_ <- ((\n%s) : ctl (%s)) ;; let %s := e_ in %s)"%(init,body,self.ety(),self.pat(),tail)
         if rec:
-            return "Fixpoint %s (fuel:nat) %s {struct fuel} : res :=\n match fuel with O => Exc OutOfFuel | S fuel =>\n%s\n end."%(name,ps,core)
-        return "Definition %s (fuel:nat) %s : res :=\n%s."%(name,ps,core)
+            return "Fixpoint %s (py_call : pyval -> pyval -> res) (fuel:nat) %s {struct fuel} : res :=\n match fuel with O => Exc OutOfFuel | S fuel =>\n%s\n end."%(name,ps,core)
+        return "Definition %s (py_call : pyval -> pyval -> res) (fuel:nat) %s : res :=\n%s."%(name,ps,core)
+    def stub(self, reason):
+        """a refused function keeps its name and arity (so that unrelated dependents still compile) but can only fail"""
+        ps=" ".join("(v_%s:pyval)"%p for p in self.params)
+        return "(* REFUSED by the translator: %s *)\nDefinition %s (py_call : pyval -> pyval -> res) (fuel:nat) %s : res := Exc Unsupported."%(reason.replace("*)","* )"),gname(self.cls,self.fn.name),ps)
 
 
 def translate_module(path, pymod, wanted=None):
     """returns (coq text, translated names, {failed name: reason})"""
     mod=Mod(path,pymod)
     out=["(* GENERATED by tools/translate.py from %s -- do not edit *)"%path,"From Coq Require Import List ZArith String.","Require Import PyLib.","Import ListNotations.","Local Open Scope Z_scope.","Local Open Scope string_scope.","",
-         "Section Gen.","Variable py_call : pyval -> pyval -> res.   (* call of a function-valued field: dispatcher / oracle *)",""]
+         "(* every generated function takes py_call: the call of a function-valued field (dispatcher / oracle) *)",""]
     items=[]
     for c,info in mod.classes.items():
         for m,fn in info["methods"].items():
             if not mod.is_abstract(fn): items.append((c,m,fn))
     for f,fn in mod.funcs.items(): items.append((None,f,fn))
-    failed={}; trs={}
+    failed={}; trs={}; stubs={}
     for c,m,fn in items:
         if wanted and (c,m) not in wanted and m not in wanted: continue
         try:
             F=Fn(mod,c,fn); txt=F.emit(); trs[(c,m)]=(F,txt)
-        except Unsupported as e: failed[(c,m)]=str(e)
-        except Exception as e: failed[(c,m)]="translator error: %s"%e
+        except Unsupported as e: failed[(c,m)]=str(e); stubs[(c,m)]=Fn(mod,c,fn).stub(str(e))
+        except Exception as e: failed[(c,m)]="translator error: %s"%e; stubs[(c,m)]=Fn(mod,c,fn).stub("translator error")
     order=[]; seen=set()
     def visit(k):
         if k in seen or k not in trs: return
@@ -284,9 +288,8 @@ def translate_module(path, pymod, wanted=None):
         order.append(k)
     for k in trs: visit(k)
     done=[]
+    for k,txt in stubs.items():
+        out.append(txt); out.append("")
     for k in order:
-        missing=[d for d in trs[k][0].calls if d not in trs or d in failed]
-        if missing: failed[k]="depends on untranslated %s"%missing; continue
         out.append("(* %s.%s : line %d *)"%(k[0],k[1],trs[k][0].fn.lineno)); out.append(trs[k][1]); out.append(""); done.append("%s.%s"%k)
-    out.append("End Gen.")
     return "\n".join(out)+"\n", done, {"%s.%s"%k:v for k,v in failed.items()}
